@@ -264,9 +264,10 @@ def check_run(case, obs):
     os.makedirs(base)
     try:
         it, bt, stab = xlgen.materialise(case, base)
-        in_path = os.path.join(base, 'experiment 1.xlsx')
+        stem = ['experiment 1', 'experiment.v2 final', 'run.2020.01.05'][case['np_seed'] % 3]
+        in_path = os.path.join(base, stem + '.xlsx')
         xlgen.write_input(in_path, it, bt, stab)
-        out_path = os.path.join(base, 'experiment 1_output.xlsx') if case['default_out'] else os.path.join(base, 'results', 'out.xlsx')
+        out_path = os.path.join(base, stem + '_output.xlsx') if case['default_out'] else os.path.join(base, 'results', 'out.xlsx')
         if not case['default_out']:
             os.makedirs(os.path.dirname(out_path))
         np.random.seed(case['np_seed'])
@@ -297,7 +298,8 @@ def check_run(case, obs):
         verify_output(obs, in_path, out_path, case['hist'], dict(faulty=faulty, healthy=healthy,
                                                                   beads_healthy=[bead_ok[b['id']] for b in case['beads']]))
         if case['default_out']:
-            obs.claim('default_path', os.path.exists(os.path.join(base, 'experiment 1_output.xlsx')), 'default output path not used')
+            obs.claim('default_path', os.path.exists(os.path.join(base, stem + '_output.xlsx')),
+                      lambda: 'default output path %s_output.xlsx not used; directory holds %r' % (stem, sorted(os.listdir(base))))
         # figures
         if case['plot']:
             insts = {i['id']: i for i in case['instruments']}
